@@ -157,8 +157,10 @@ def run(ctx):
         results = json.load(open(rf))
         ctx.extra["witness_replays"] = [dict(name=x["name"], forced=x["ok"], observed=x["observed"], why=x.get("why", "")) for x in results]
         for x in results:
-            if x.get("hung") or not x["ok"]:
-                ctx.deviation(None, "witness schedule %s could not be forced / did not terminate on the real code: %s (observed %s)" % (
+            # a schedule that merely could not be forced (a repaired tree blocks where the as-built model runs on) is no
+            # verdict: the calls were drained and the recorded history is judged below
+            if x.get("hung"):
+                ctx.deviation(None, "witness schedule %s did not terminate on the real code: %s (observed %s)" % (
                     x["name"], x.get("why"), x["observed"]), dict(kind="schedule", schedule=[s for s in scheds if s["name"] == x["name"]]))
         base.errors_in(ctx, tf, "witness-replay")
         base.drop_error_histories(tf)
